@@ -213,3 +213,23 @@ func verifFloatFits(v constant.Value, f32 bool) bool {
 	}
 	return constant.Compare(v, token.LSS, lim) && constant.Compare(v, token.GTR, verifNeg(lim))
 }
+
+// targets of constant assignment: every basic kind plus representative named/composite/interface types
+var verifConstTargets = []string{"t_bool", "t_int", "t_int8", "t_int16", "t_int32", "t_int64", "t_uint", "t_uint8", "t_uint16", "t_uint32", "t_uint64", "t_uintptr",
+	"t_float32", "t_float64", "t_complex64", "t_complex128", "t_string", "t_nint8", "t_nuint8", "t_nf32", "t_nstr", "t_nbool", "t_aint", "t_pint", "t_slint", "t_mapsi", "t_chan", "t_fn", "t_st", "t_any", "t_err", "t_ifm", "t_unsafe"}
+
+func verifPickNamed(name string, all []verifType, names []string) verifType {
+	if vp.Thorough() {
+		i := vp.Choose(name, len(all))
+		vp.Fact(name+".id", i)
+		return all[i]
+	}
+	want := names[vp.Choose(name, len(names))]
+	for i, t := range all {
+		if t.name == want {
+			vp.Fact(name+".id", i)
+			return t
+		}
+	}
+	panic("unknown type " + want)
+}
